@@ -205,6 +205,39 @@ def report(ctx, res, write_ev=True):
     return 1 if new else 0
 
 
+def acquire_run_slot():
+    """Machine-wide semaphore: at most VERIF_SLOTS (default 2) vcheck runs at a time, so that the
+    tier deadlines and the E3 watchdogs measure the check and not the neighbours (several checks are
+    routinely run side by side while the machinery is being developed; each uses all 16 cores).
+    A single run never waits.  The returned file object keeps the lock until the process exits."""
+    import fcntl
+    n = int(os.environ.get('VERIF_SLOTS', '2'))
+    if n <= 0:
+        return None
+    d = '/var/tmp/squid-verif-slots'
+    try:
+        os.makedirs(d, exist_ok=True)
+        os.chmod(d, 0o1777)
+    except OSError:
+        pass
+    waited = 0
+    while True:
+        for i in range(n):
+            try:
+                f = open(os.path.join(d, 'slot%d.lock' % i), 'a+')
+            except OSError:
+                return None
+            try:
+                fcntl.flock(f, fcntl.LOCK_EX | fcntl.LOCK_NB)
+                if waited:
+                    print('# vcheck: waited %d s for a run slot' % waited, file=sys.stderr)
+                return f
+            except OSError:
+                f.close()
+        time.sleep(1)
+        waited += 1
+
+
 def main(argv=None):
     argv = list(sys.argv[1:] if argv is None else argv)
     if not argv:
@@ -228,6 +261,7 @@ def main(argv=None):
         seed = int(os.environ.get('VERIF_SEED', '0'))
     except ValueError:
         seed = 0
+    slot = acquire_run_slot()
     ctx = Ctx(pid, tier, seed)
     try:
         mod = load_check(pid)
